@@ -264,7 +264,7 @@ def h_web_step(c0: bytes, c1: bytes, target: int, body: bytes, cond: int) -> boo
 
 _B = {"quick": {"n": 2, "blen": 2}, "thorough": {"n": 3, "blen": 3}}
 _WEB_PARTS_Q = [("PUT", False, "/"), ("PUT", True, "/dav/"), ("DELETE", False, "/"), ("DELETE", True, "/"),
-                ("POST", False, "/dav/"), ("GET", True, "/")]
+                ("POST", False, "/"), ("POST", True, "/dav/"), ("GET", True, "/")]
 _WEB_PARTS_T = [(m, w, p) for m in ("PUT", "DELETE", "POST", "GET") for w in (False, True) for p in ("/", "/dav/")]
 
 HARNESSES = [
